@@ -135,6 +135,12 @@ class _Spell(ast.NodeTransformer):
 
     def visit_BinOp(self, n):
         self.generic_visit(n)
+        # diag(v) ** k  ->  diag(v ** k)   (k a positive integer literal: the off-diagonal zeros stay zero)
+        if isinstance(n.op, ast.Pow) and isinstance(n.right, ast.Constant) and isinstance(n.right.value, int) and not isinstance(n.right.value, bool) \
+                and n.right.value >= 1 and isinstance(n.left, ast.Call) and isinstance(n.left.func, ast.Name) and n.left.func.id == "diag" \
+                and len(n.left.args) == 1 and not n.left.keywords:
+            self.k += 1
+            return ast.copy_location(ast.Call(func=n.left.func, args=[ast.BinOp(left=n.left.args[0], op=ast.Pow(), right=n.right)], keywords=[]), n)
         # (a,) * 2 / [a] * 3 with a small literal count and a plain element: the tuple / list written out
         if isinstance(n.op, ast.Mult):
             for seq, cnt in ((n.left, n.right), (n.right, n.left)):
